@@ -2,6 +2,8 @@ import Pyunicorn.Lemmas.Similarity
 import Pyunicorn.Lemmas.SimilarityIeee
 import Pyunicorn.Lemmas.SimilarityWeight
 import Pyunicorn.Lemmas.SimilarityHilbert
+import Pyunicorn.Lemmas.SimilarityRounding
+import Pyunicorn.Lemmas.SimilarityCoupled
 import Pyunicorn.Generated.ArithC09
 import Pyunicorn.Model.SimilarityScript
 /-!
@@ -627,14 +629,14 @@ theorem gen_countLinks (directed : Bool) (A : List Bool) :
 `k` of `(1-ρ)·len`, which satisfies both index hypotheses of the density theorems with `ε = 0`,
 and it addresses an existing entry -/
 theorem gen_thrIndex (ρ : Rat) (len : Nat) (hρ1 : ρ ≤ 1) (hlen : 0 < len) :
-    ∃ k : Nat, ArithC09.thrIndex ρ (len : Int) = ((min k (len - 1) : Nat) : Int) ∧
+    ∃ k : Nat, StructC09.thrIndex ρ (len : Int) = ((min k (len - 1) : Nat) : Int) ∧
       (1 - ρ) * (len : Rat) - 1 - 0 ≤ (k : Rat) ∧ (k : Rat) ≤ (1 - ρ) * (len : Rat) + 0 := by
   have hx : 0 ≤ (1 - ρ) * (len : Rat) := by
     apply Rat.mul_nonneg (by grind)
     exact_mod_cast Nat.zero_le len
   have hf0 : 0 ≤ ((1 - ρ) * (len : Rat)).floor := Rat.le_floor_iff.2 (by simpa using hx)
   refine ⟨((1 - ρ) * (len : Rat)).floor.toNat, ?_, ?_, ?_⟩
-  · simp only [ArithC09.thrIndex]
+  · simp only [StructC09.thrIndex]
     have e : ((1 : Int) : Rat) - ρ = 1 - ρ := by norm_cast
     have e2 : (((len : Nat) : Int) : Rat) = (len : Rat) := by norm_cast
     rw [e, e2]
@@ -815,6 +817,477 @@ example : ((mkHilbert 2 true (fun i j => if i = j then 1 else 3/4)
       (fun h => (h.net.directed, h.net.A, h.net.nLinks, h.net.density))
     = some (false, [false, true, true, false], 1, some 1) := by decide +kernel
 
+/-! ## 9. as executed: NaN similarities and float32 rounding (round 4)
+
+`Model/SimilarityNumeric.lean`: entries `Option Rat` (`none` = NaN), the rounding `fl` of the
+arrays' arithmetic as a parameter (`rn24` = IEEE binary32 in the driver).  The exact model of
+sections 1–5 is the special case "no NaN, `fl = id`" (`x_refines`). -/
+
+/-- **link rule with NaNs**: linked ⇔ distinct, both the (weighted) similarity and the threshold
+are numbers, and the similarity exceeds the threshold -/
+theorem x_link_iff (W : XSim) (θ : Option Rat) (N i j : Nat) (hi : i < N) (hj : j < N) :
+    (thresholdAdjacencyX W θ N)[i * N + j]? = some true ↔
+      i ≠ j ∧ ∃ s t, W i j = some s ∧ θ = some t ∧ t < s := by
+  rw [getElem?_thresholdAdjacencyX W θ N i j hi hj]
+  cases hW : W i j with
+  | none => simp [gtX]
+  | some s =>
+    cases θ with
+    | none => simp [gtX]
+    | some t => simp [gtX]
+
+theorem x_adjacency_length (W : XSim) (θ : Option Rat) (N : Nat) :
+    (thresholdAdjacencyX W θ N).length = N * N := length_thresholdAdjacencyX W θ N
+
+/-- a pair whose similarity is NaN is never linked, whatever the threshold and the weight -/
+theorem x_nan_never_linked (fl : Rat → Rat) (nl : Bool) (S : XSim) (damp : Sim) (θ : Option Rat)
+    (N i j : Nat) (hi : i < N) (hj : j < N) (h : S i j = none) :
+    (thresholdAdjacencyX (weightedX fl nl S damp) θ N)[i * N + j]? = some false := by
+  rw [getElem?_thresholdAdjacencyX _ θ N i j hi hj]
+  simp [weightedX, h, gtX]
+
+/-- a NaN threshold (selected by the quantile rule when NaNs reach the index) gives the empty network -/
+theorem x_nan_threshold_empty (W : XSim) (N : Nat) : nnz (thresholdAdjacencyX W none N) = 0 := by
+  rw [nnz_thresholdAdjacencyX, List.countP_eq_zero]
+  intro x _; simp [gtX_none]
+
+/-- **link rule at the object, as executed**: `|fl s₀|` is the stored float32 similarity, the
+product with the weight and the threshold are rounded by the arrays' arithmetic -/
+theorem x_link_iff_object (fl : Rat → Rat) (N : Nat) (directed : Bool) (S0 : XSim) (damp : Sim)
+    (nl : Bool) (θ : Option Rat) (i j : Nat) (hi : i < N) (hj : j < N) :
+    (mkThresholdX fl N directed S0 damp nl θ).A[i * N + j]? = some true ↔
+      i ≠ j ∧ ∃ s0 t, S0 i j = some s0 ∧ θ = some t ∧
+        fl t < (if nl then fl (ratAbs (fl s0) * damp i j) else ratAbs (fl s0)) := by
+  simp only [mkThresholdX, XNet.setThreshold, xblank]
+  rw [x_link_iff _ _ _ _ _ hi hj]
+  cases hS : S0 i j with
+  | none => simp [weightedX, absX, hS]
+  | some s0 =>
+    cases θ with
+    | none => simp
+    | some t => cases nl <;> simp [weightedX, absX, hS]
+
+/-- **no spurious link from rounding the threshold**: for a monotone rounding that leaves the stored
+similarity `s` unchanged, a reported link means `s` exceeds the *unrounded* threshold -/
+theorem float_links_sound (fl : Rat → Rat) (hmono : ∀ x y, x ≤ y → fl x ≤ fl y) (W : XSim) (t : Rat)
+    (N i j : Nat) (hi : i < N) (hj : j < N) (s : Rat) (hW : W i j = some s) (hrep : fl s = s)
+    (h : (thresholdAdjacencyX W ((some t).map fl) N)[i * N + j]? = some true) : i ≠ j ∧ t < s := by
+  rw [x_link_iff _ _ _ _ _ hi hj] at h
+  obtain ⟨hij, s', t', h1, h2, h3⟩ := h
+  rw [hW] at h1
+  simp only [Option.map_some, Option.some.injEq] at h1 h2
+  subst h1 h2
+  refine ⟨hij, ?_⟩
+  by_contra hn
+  have := hmono _ _ (not_lt.1 hn)
+  rw [hrep] at this
+  exact absurd h3 (not_lt.2 this)
+
+/-- **the only links lost to the rounding**: a pair above the threshold is unlinked only when the
+threshold rounds *onto* its similarity (`θ` within half an ulp below `s`) -/
+theorem float_links_complete (fl : Rat → Rat) (hmono : ∀ x y, x ≤ y → fl x ≤ fl y) (W : XSim)
+    (t : Rat) (N i j : Nat) (hi : i < N) (hj : j < N) (hij : i ≠ j) (s : Rat) (hW : W i j = some s)
+    (hrep : fl s = s) (hts : t < s)
+    (h : (thresholdAdjacencyX W ((some t).map fl) N)[i * N + j]? ≠ some true) : fl t = s := by
+  rw [Ne, x_link_iff _ _ _ _ _ hi hj] at h
+  have h1 : fl t ≤ s := by
+    have := hmono _ _ (le_of_lt hts); rwa [hrep] at this
+  rcases lt_or_eq_of_le h1 with h2 | h2
+  · exact absurd ⟨hij, s, fl t, hW, rfl, h2⟩ h
+  · exact h2
+
+/-- a representable threshold is compared exactly -/
+theorem float_threshold_exact (fl : Rat → Rat) (W : XSim) (t : Rat) (N : Nat) (ht : fl t = t) :
+    thresholdAdjacencyX W ((some t).map fl) N = thresholdAdjacencyX W (some t) N := by
+  simp [ht]
+
+/-- **raising the threshold only removes links, as executed** (NaNs, rounded thresholds) -/
+theorem x_antitone_in_threshold (fl : Rat → Rat) (hmono : ∀ x y, x ≤ y → fl x ≤ fl y) (W : XSim)
+    (t t' : Rat) (N i j : Nat) (hi : i < N) (hj : j < N) (h : t ≤ t')
+    (hl : (thresholdAdjacencyX W ((some t').map fl) N)[i * N + j]? = some true) :
+    (thresholdAdjacencyX W ((some t).map fl) N)[i * N + j]? = some true := by
+  rw [x_link_iff _ _ _ _ _ hi hj] at hl ⊢
+  obtain ⟨hij, s, t1, h1, h2, h3⟩ := hl
+  simp only [Option.map_some, Option.some.injEq] at h2
+  subst h2
+  exact ⟨hij, s, fl t, h1, rfl, lt_of_le_of_lt (hmono _ _ h) h3⟩
+
+/-- a symmetric similarity (NaNs in symmetric positions) gives a symmetric adjacency -/
+theorem x_symmetric_of_symmetric (W : XSim) (θ : Option Rat) (N i j : Nat) (hi : i < N) (hj : j < N)
+    (hsym : W i j = W j i) :
+    (thresholdAdjacencyX W θ N)[i * N + j]? = (thresholdAdjacencyX W θ N)[j * N + i]? := by
+  rw [getElem?_thresholdAdjacencyX W θ N i j hi hj, getElem?_thresholdAdjacencyX W θ N j i hj hi,
+    hsym]
+  have : (i ≠ j) = (j ≠ i) := propext ⟨Ne.symm, Ne.symm⟩
+  simp only [this]
+
+/-- **suppression of local links only removes links, as executed in floating point** -/
+theorem x_nnz_non_local_le (fl : Rat → Rat) (hmono : ∀ x y, x ≤ y → fl x ≤ fl y) (S : XSim)
+    (damp : Sim) (θ : Option Rat) (N : Nat)
+    (hrep : ∀ i j s, i < N → j < N → S i j = some s → fl s = s ∧ 0 ≤ s)
+    (hd : ∀ i j, i < N → j < N → damp i j ≤ 1) :
+    nnz (thresholdAdjacencyX (weightedX fl true S damp) θ N)
+      ≤ nnz (thresholdAdjacencyX (weightedX fl false S damp) θ N) :=
+  nnzX_non_local_le fl hmono S damp θ N hrep hd
+
+/-- **the realised density never exceeds the request, as executed**: NaN pairs (sorted last, never
+linked), the float product `fl (s·w)`, the threshold compared after rounding — for every monotone
+rounding that leaves the stored similarities unchanged; no margin is needed -/
+theorem x_density_le_request (fl : Rat → Rat) (hmono : ∀ x y, x ≤ y → fl x ≤ fl y) (S : XSim)
+    (damp : Sim) (nl : Bool) (N k : Nat) (ρ ε : Rat) (θ : Option Rat)
+    (hrep : ∀ i j s, i < N → j < N → S i j = some s → fl s = s ∧ 0 ≤ s)
+    (hd : ∀ i j, i < N → j < N → damp i j ≤ 1)
+    (hρ : 0 ≤ ρ) (hε : 0 ≤ ε)
+    (hk : (1 - ρ) * ((offDiagX S N).length : Rat) - 1 - ε ≤ (k : Rat))
+    (h : thresholdFromIndexX S N k = some θ) :
+    (nnz (thresholdAdjacencyX (weightedX fl nl S damp) (θ.map fl) N) : Rat)
+      ≤ ρ * ((offDiagX S N).length : Rat) + ε :=
+  densityX_le_request fl hmono S damp nl N k ρ ε θ hrep hd hρ hε hk h
+
+/-- **with NaNs the request is missed by at most the tied pairs plus the NaN pairs** (non_local off) -/
+theorem x_density_gap (fl : Rat → Rat) (S : XSim) (damp : Sim) (N k : Nat) (ρ ε : Rat)
+    (θ : Option Rat)
+    (hrep : ∀ i j s, i < N → j < N → S i j = some s → fl s = s ∧ 0 ≤ s)
+    (hk : (k : Rat) ≤ (1 - ρ) * ((offDiagX S N).length : Rat) + ε)
+    (h : thresholdFromIndexX S N k = some θ) :
+    ρ * ((offDiagX S N).length : Rat) - ε
+      ≤ (nnz (thresholdAdjacencyX (weightedX fl false S damp) (θ.map fl) N) : Rat)
+        + (tiesX (offDiagX S N) θ : Rat) + ((offDiagX S N).countP Option.isNone : Rat) :=
+  densityX_gap fl S damp N k ρ ε θ hrep hk h
+
+/-- **`set_link_density(ρ)` as executed, with NaNs and float32 arithmetic** (IEEE index):
+`nnz ≤ (ρ + 2⁻⁵² + 2⁻¹⁰⁶)·(N² − N)` -/
+theorem x_set_link_density_ieee (fl : Rat → Rat) (hmono : ∀ x y, x ≤ y → fl x ≤ fl y)
+    (s s' : XNet) (ρ : Rat)
+    (hrep : ∀ i j v, i < s.N → j < s.N → s.S i j = some v → fl v = v ∧ 0 ≤ v)
+    (hd : ∀ i j, i < s.N → j < s.N → s.damp i j ≤ 1) (h0 : 0 ≤ ρ) (h1 : ρ ≤ 1)
+    (h : s.setLinkDensity fl (ieeeIndex ρ (offDiagX s.S s.N).length) = some s') :
+    (nnz s'.A : Rat) ≤ (ρ + ieeeSlack) * ((offDiagX s.S s.N).length : Rat) := by
+  simp only [XNet.setLinkDensity, Option.map_eq_some_iff] at h
+  obtain ⟨θ, hθ, rfl⟩ := h
+  obtain ⟨b1, _⟩ := ieeeIndex_bounds ρ (offDiagX s.S s.N).length h0 h1
+  have hslack : (0 : Rat) ≤ ieeeSlack := by unfold ieeeSlack; positivity
+  have hlen : (0 : Rat) ≤ ((offDiagX s.S s.N).length : Rat) := by exact_mod_cast Nat.zero_le _
+  have hε : (0 : Rat) ≤ ((offDiagX s.S s.N).length : Rat) * ieeeSlack := mul_nonneg hlen hslack
+  have := x_density_le_request fl hmono s.S s.damp s.nonLocal s.N _ ρ _ θ hrep hd h0 hε b1 hθ
+  simp only [XNet.setThreshold]
+  linarith
+
+/-- the quantile rule selects a stored similarity or NaN; the call raises exactly for `N ≤ 1` -/
+theorem x_threshold_mem (S : XSim) (N k : Nat) (t : Rat)
+    (h : thresholdFromIndexX S N k = some (some t)) : some t ∈ offDiagX S N :=
+  quantileX_mem _ k t h
+
+/-- **order statistic with NaNs**: at most `len − 1 − m` pairs exceed the selected value and at
+least `len − m` exceed it, tie with it or are NaN (`m` the clamped index) -/
+theorem x_threshold_is_order_statistic (S : XSim) (N k : Nat) (θ : Option Rat)
+    (h : thresholdFromIndexX S N k = some θ) :
+    (offDiagX S N).countP (fun x => gtX x θ) + min k ((offDiagX S N).length - 1) + 1
+        ≤ (offDiagX S N).length ∧
+      (offDiagX S N).length ≤ (offDiagX S N).countP (fun x => gtX x θ) + tiesX (offDiagX S N) θ
+        + (offDiagX S N).countP Option.isNone + min k ((offDiagX S N).length - 1) :=
+  ⟨quantileX_upper _ k θ h, quantileX_lower _ k θ h⟩
+
+/-- binary32 rounding: relative error `2⁻²⁴`, absolute error `2⁻¹⁵⁰` (gradual underflow) -/
+theorem rn24_error (x : Rat) : |rn24 x - x| ≤ (1 / 2 ^ 24) * |x| + 1 / 2 ^ 150 := rn24_err x
+
+/-- **proved margin for the float comparison**: for every rounding with relative error `u` and
+absolute error `η`, `fl θ < fl p` decides as `θ < p` once `|p − θ| > u (|p| + |θ|) + 2η` -/
+theorem float_decision_exact_of_margin (fl : Rat → Rat) (u η : Rat) (h : RoundsWithin fl u η)
+    (p θ : Rat) (hm : u * (|p| + |θ|) + 2 * η < |p - θ|) : fl θ < fl p ↔ θ < p :=
+  decision_exact_of_margin fl u η h p θ hm
+
+/-- a relative distance of `4u` from the threshold (plus `4η`) is such a margin: for binary32 a
+relative gap of `2⁻²²` ≈ 2.4e-7 — the harness's former near-tie exclusion (1e-6) was sufficient -/
+theorem float_margin_of_relative_gap (u η p θ : Rat) (hu0 : 0 ≤ u) (hu : u ≤ 1 / 4) (hη : 0 ≤ η)
+    (hg : 4 * u * |θ| + 4 * η < |p - θ|) : u * (|p| + |θ|) + 2 * η < |p - θ| :=
+  margin_of_relative_gap u η p θ hu0 hu hη hg
+
+/-- the float32 decision on the damped similarity equals the exact one outside the `2⁻²²` band -/
+theorem rn24_decision_exact (p θ : Rat)
+    (hg : 4 * (1 / 2 ^ 24) * |θ| + 4 * (1 / 2 ^ 150) < |p - θ|) : rn24 θ < rn24 p ↔ θ < p :=
+  decision_exact_of_margin rn24 _ _ rn24_roundsWithin p θ
+    (margin_of_relative_gap _ _ p θ (by positivity) (by norm_num) (by positivity) hg)
+
+/-! ### the distance weight as executed -/
+
+/-- **the computed weight lies in `[0, 1]`**: every operation of
+`0.5 * (np.tanh(a * (d - d_min)) + 1)` rounded by a monotone rounding that is exact on `0, 1, 2`,
+`tanh` any function with values in `[-1, 1]` — the hypothesis `damp ≤ 1` of the density theorems
+holds for the weight the code computes, not only for the exact formula -/
+theorem dampOfFl_mem_unit (fl th : Rat → Rat) (hmono : ∀ x y, x ≤ y → fl x ≤ fl y)
+    (h0 : fl 0 = 0) (h1 : fl 1 = 1) (h2 : fl 2 = 2) (hth : ∀ x, -1 ≤ th x ∧ th x ≤ 1)
+    (a dmin d : Rat) : 0 ≤ dampOfFl fl th a dmin d ∧ dampOfFl fl th a dmin d ≤ 1 := by
+  unfold dampOfFl
+  obtain ⟨t1, t2⟩ := hth (fl (a * fl (d - dmin)))
+  set t := th (fl (a * fl (d - dmin)))
+  have a1 : 0 ≤ fl (t + 1) := by have := hmono 0 (t + 1) (by linarith); rwa [h0] at this
+  have a2 : fl (t + 1) ≤ 2 := by have := hmono (t + 1) 2 (by linarith); rwa [h2] at this
+  constructor
+  · have := hmono 0 (1 / 2 * fl (t + 1)) (by linarith); rwa [h0] at this
+  · have := hmono (1 / 2 * fl (t + 1)) 1 (by linarith); rwa [h1] at this
+
+/-- with exact arithmetic the executed formula is the documented one -/
+theorem dampOfFl_id (th : Rat → Rat) (a dmin d : Rat) :
+    dampOfFl id th a dmin d = dampOf th a dmin d := rfl
+
+/-- **suppression of local links with the weight as computed only removes links, as executed** -/
+theorem x_nnz_non_local_le_documented (fl th : Rat → Rat) (hmono : ∀ x y, x ≤ y → fl x ≤ fl y)
+    (h0 : fl 0 = 0) (h1 : fl 1 = 1) (h2 : fl 2 = 2) (hth : ∀ x, -1 ≤ th x ∧ th x ≤ 1)
+    (S : XSim) (dist : Sim) (a dmin : Rat) (θ : Option Rat) (N : Nat)
+    (hrep : ∀ i j s, i < N → j < N → S i j = some s → fl s = s ∧ 0 ≤ s) :
+    nnz (thresholdAdjacencyX (weightedX fl true S (dampMatFl fl th a dmin dist)) θ N)
+      ≤ nnz (thresholdAdjacencyX (weightedX fl false S (dampMatFl fl th a dmin dist)) θ N) :=
+  x_nnz_non_local_le fl hmono S _ θ N hrep fun i j _ _ =>
+    (dampOfFl_mem_unit fl th hmono h0 h1 h2 hth a dmin (dist i j)).2
+
+/-! ### `link_density_function` (l.343–359) -/
+
+/-- **`link_density_function(n)[i]` is the fraction of all `N²` stored similarities below bin edge
+`i`** (`i < n`; edges ascending, all entries inside `[e₀, eₙ]` as `np.histogram` guarantees) -/
+theorem link_density_function_spec (S : Sim) (N : Nat) (edges : List Rat) (n i : Nat) (hi : i < n)
+    (hmono : ∀ a, a < n → edges.getD a 0 ≤ edges.getD (a + 1) 0)
+    (hin : ∀ x ∈ allEntries S N, edges.getD 0 0 ≤ x ∧ x ≤ edges.getD n 0) :
+    (linkDensityFunction S N edges n)[i]? = some
+      ((((allEntries S N).countP fun x => decide (x < edges.getD i 0) : Nat) : Rat)
+        / ((N * N : Nat) : Rat)) := by
+  unfold linkDensityFunction
+  simp only [List.getElem?_map, List.getElem?_range hi, Option.map_some]
+  rw [hist_prefix_sum _ _ _ _ hi hmono, hist_total _ _ _ (by omega) hmono hin, length_allEntries,
+    cnt_below _ _ _ fun x hx => (hin x hx).1]
+
+/-- despite its name the function bounds the link density from above: at threshold `e_i` the
+number of (ordered) linked pairs is at most the number of entries not below `e_i` -/
+theorem link_density_function_bounds_links (S : Sim) (N : Nat) (e : Rat) :
+    nnz (thresholdAdjacency S e N) + (allEntries S N).countP (fun x => decide (x < e)) ≤ N * N := by
+  rw [nnz_thresholdAdjacency, ← length_allEntries S N]
+  have h1 := offDiag_countP_le_all S N fun s => decide (e < s)
+  have h2 := countP_add_le_length (allEntries S N) (fun s => decide (e < s))
+    (fun x => decide (x < e)) (by
+      intro x _ ⟨a, b⟩
+      simp only [decide_eq_true_eq] at a b
+      exact absurd a (not_lt.2 (le_of_lt b)))
+  omega
+
+/-- the function starts at 0 and never decreases (exact arithmetic) -/
+theorem link_density_function_mono (xs : List Rat) (e e' : Rat) (h : e ≤ e') :
+    xs.countP (fun x => decide (x < e)) ≤ xs.countP (fun x => decide (x < e')) := by
+  apply List.countP_mono_left
+  intro x _ hx
+  simp only [decide_eq_true_eq] at hx ⊢
+  exact lt_of_lt_of_le hx h
+
+example : linkDensityFunction (fun i j => ((2 * i + j + 1 : Nat) : Rat) / 4) 2 [1/4, 1/2, 3/4, 1] 3
+    = [0, 1/4, 1/2] := by decide +kernel
+
+/-! ### consistency after every history, as executed -/
+
+def XNet.Consistent (fl : Rat → Rat) (s : XNet) : Prop :=
+  s.A = thresholdAdjacencyX (weightedX fl s.nonLocal s.S s.damp) (s.θ.map fl) s.N ∧
+  s.nLinks = countLinks s.directed s.A ∧
+  s.density = linkDensity s.A s.N
+
+def XNet.SameData (s t : XNet) : Prop :=
+  t.N = s.N ∧ t.directed = s.directed ∧ t.damp = s.damp
+
+def curSimX (fl : Rat → Rat) (S : XSim) : List XOp → XSim
+  | [] => S
+  | .resim S1 :: os => curSimX fl (absX fl S1) os
+  | _ :: os => curSimX fl S os
+
+theorem x_setThreshold_consistent (fl : Rat → Rat) (s : XNet) (θ : Option Rat) :
+    (s.setThreshold fl θ).Consistent fl ∧ s.SameData (s.setThreshold fl θ) ∧
+      (s.setThreshold fl θ).S = s.S := by
+  simp [XNet.setThreshold, XNet.Consistent, XNet.SameData]
+
+theorem x_step_consistent (fl : Rat → Rat) (s s' : XNet) (o : XOp) (hc : s.Consistent fl)
+    (h : s.step fl o = some s') :
+    s'.Consistent fl ∧ s.SameData s' ∧ s'.S = curSimX fl s.S [o] := by
+  cases o with
+  | thr θ =>
+    simp only [XNet.step, Option.some.injEq] at h
+    subst h
+    exact x_setThreshold_consistent fl s θ
+  | dens k =>
+    simp only [XNet.step, XNet.setLinkDensity, Option.map_eq_some_iff] at h
+    obtain ⟨θ, _, rfl⟩ := h
+    exact x_setThreshold_consistent fl s θ
+  | nl b =>
+    simp only [XNet.step, XNet.setNonLocal, Option.some.injEq] at h
+    by_cases hb : (s.nonLocal != b) = true
+    · rw [if_pos hb] at h
+      subst h
+      exact x_setThreshold_consistent fl { s with nonLocal := b } s.θ
+    · rw [if_neg hb] at h
+      subst h
+      exact ⟨hc, ⟨rfl, rfl, rfl⟩, rfl⟩
+  | resim S1 =>
+    simp only [XNet.step, Option.some.injEq] at h
+    subst h
+    exact x_setThreshold_consistent fl { s with S := absX fl S1 } s.θ
+
+theorem curSimX_cons (fl : Rat → Rat) (S : XSim) (o : XOp) (os : List XOp) :
+    curSimX fl S (o :: os) = curSimX fl (curSimX fl S [o]) os := by
+  cases o <;> simp [curSimX]
+
+/-- **consistency after every history, as executed**: NaN similarities, NaN thresholds, float32
+arithmetic — adjacency, link count and density are those of the reported threshold / `non_local`
+and of the current similarity -/
+theorem x_consistent_after_history (fl : Rat → Rat) (ops : List XOp) (s s' : XNet)
+    (hc : s.Consistent fl) (h : s.run fl ops = some s') :
+    s'.Consistent fl ∧ s.SameData s' ∧ s'.S = curSimX fl s.S ops := by
+  induction ops generalizing s with
+  | nil =>
+    simp only [XNet.run, Option.some.injEq] at h
+    subst h
+    exact ⟨hc, ⟨rfl, rfl, rfl⟩, rfl⟩
+  | cons o os ih =>
+    simp only [XNet.run, Option.bind_eq_some_iff] at h
+    obtain ⟨s1, h1, h2⟩ := h
+    have c1 := x_step_consistent fl s s1 o hc h1
+    have c2 := ih s1 c1.1 h2
+    refine ⟨c2.1, ?_, ?_⟩
+    · obtain ⟨a1, a2, a3⟩ := c1.2.1
+      obtain ⟨b1, b2, b3⟩ := c2.2.1
+      exact ⟨b1.trans a1, b2.trans a2, b3.trans a3⟩
+    · rw [c2.2.2, c1.2.2, ← curSimX_cons]
+
+theorem curSimX_absX (fl : Rat → Rat) (S0 : XSim) (ops : List XOp) :
+    curSimX fl (absX fl S0) ops = absX fl (lastSimX S0 ops) := by
+  induction ops generalizing S0 with
+  | nil => rfl
+  | cons o os ih => cases o <;> simp [curSimX, lastSimX, ih]
+
+/-- **fresh twin, as executed**: after any history the object equals the fresh
+`ClimateNetwork(grid, S, threshold=threshold(), non_local=non_local())` built from the similarity
+last handed over — also with NaN entries and a NaN threshold -/
+theorem x_history_eq_fresh (fl : Rat → Rat) (N : Nat) (directed : Bool) (S0 : XSim) (damp : Sim)
+    (nl : Bool) (θ : Option Rat) (ops : List XOp) (s' : XNet)
+    (h : (mkThresholdX fl N directed S0 damp nl θ).run fl ops = some s') :
+    s' = mkThresholdX fl N directed (lastSimX S0 ops) damp s'.nonLocal s'.θ := by
+  have hc : (mkThresholdX fl N directed S0 damp nl θ).Consistent fl :=
+    (x_setThreshold_consistent fl _ θ).1
+  obtain ⟨⟨c1, c2, c3⟩, ⟨d1, d2, d3⟩, d4⟩ := x_consistent_after_history fl ops _ s' hc h
+  have hS : s'.S = absX fl (lastSimX S0 ops) := by
+    rw [d4, ← curSimX_absX]; rfl
+  cases s'
+  simp only [mkThresholdX, XNet.setThreshold, xblank] at *
+  subst d1 d2 d3 hS
+  simp [c1, c2, c3]
+
+/-- **the exact model is the special case** "no NaN, no rounding": running a history on the
+embedded object is embedding the result of the exact model -/
+theorem x_refines (ops : List Op) (s : Net) :
+    (embed s).run id (ops.map embedOp) = (s.run ops).map embed := embed_run' ops s
+
+/-- NaN pair in a 3-node network, request ρ = 1/2 (index 3 of 6): the NaNs sort last, the selected
+value 1/2 leaves 1 ordered pair linked (≤ 3), 2 tied, 2 NaN -/
+example : let S : XSim := fun i j => if i + j = 1 then none else some (((i + j : Nat) : Rat) / 4)
+    thresholdFromIndexX S 3 3 = some (some (3/4)) ∧ thresholdFromIndexX S 3 5 = some none ∧
+      thresholdFromIndexX S 3 1 = some (some (1/2)) ∧
+      nnz (thresholdAdjacencyX S (some (1/2)) 3) = 2 ∧
+      (offDiagX S 3).countP Option.isNone = 2 ∧ tiesX (offDiagX S 3) (some (1/2)) = 2 := by
+  decide +kernel
+
+/-- float32: the threshold 1 − 2⁻³⁰ rounds onto the similarity 1 — the pair is above the threshold
+but unlinked (`float_links_complete`); 1 − 2⁻²⁰ does not -/
+example : rn24 (1 - 1 / 2 ^ 30) = 1 ∧ rn24 (1 - 1 / 2 ^ 20) = 1 - 1 / 2 ^ 20 ∧
+    rn24 (1 / 3) = 11184811 / 33554432 ∧ rn24 (-(1 / 3)) = -(11184811 / 33554432) ∧
+    rn24 (3 / 2 ^ 150) = 4 / 2 ^ 150 := by decide +kernel
+
+/-! ## 10. `CoupledClimateNetwork`: the layer / cross-layer accessors (round 4)
+
+The accessors are `InteractingNetworks` methods (C11's model `Pyunicorn.Cross`, imported) applied to
+the adjacency the `ClimateNetwork` model holds; here they are proved to return the thresholded
+blocks of the similarity — for the constructed object and after every history. -/
+
+open Pyunicorn.Cross in
+/-- **`cross_layer_adjacency()`** of a consistent coupled network: entry `(i, j)` is 1 exactly when
+the (weighted) similarity of node `i` of layer 1 and node `j` of layer 2 exceeds the threshold -/
+theorem coupled_cross_layer_adjacency (N1 N2 : Nat) (s : Net) (hc : s.Consistent)
+    (hN : s.N = N1 + N2) :
+    crossLayerAdjacency N1 N2 s = (List.range N1).map fun i => (List.range N2).map fun j =>
+      b2n (decide (s.θ < weighted s.nonLocal s.S s.damp i (N1 + j))) := by
+  unfold crossLayerAdjacency nodes1 nodes2
+  rw [hc.1, hN, blockN_congr _ (fun a b => b2n (decide (s.θ < weighted s.nonLocal s.S s.damp a b)))]
+  · simp [List.map_map, Function.comp_def]
+  · intro a ha b hb
+    simp only [List.mem_range] at ha
+    simp only [List.mem_map, List.mem_range] at hb
+    obtain ⟨j, hj, rfl⟩ := hb
+    rw [adjOf_thresholdAdjacency _ _ _ _ _ (by omega) (by omega)]
+    have : a ≠ N1 + j := by omega
+    simp [this]
+
+open Pyunicorn.Cross in
+/-- **`adjacency_1()`**: the thresholded block of the first layer, zero diagonal -/
+theorem coupled_adjacency_1 (N1 N2 : Nat) (s : Net) (hc : s.Consistent) (hN : s.N = N1 + N2) :
+    adjacency1 N1 s = (List.range N1).map fun i => (List.range N1).map fun j =>
+      b2n (decide (i ≠ j ∧ s.θ < weighted s.nonLocal s.S s.damp i j)) := by
+  unfold adjacency1 internalAdjacency nodes1
+  rw [hc.1, hN]
+  apply blockN_congr
+  intro a ha b hb
+  simp only [List.mem_range] at ha hb
+  rw [adjOf_thresholdAdjacency _ _ _ _ _ (by omega) (by omega)]
+
+open Pyunicorn.Cross in
+/-- **`adjacency_2()`**: the thresholded block of the second layer, zero diagonal -/
+theorem coupled_adjacency_2 (N1 N2 : Nat) (s : Net) (hc : s.Consistent) (hN : s.N = N1 + N2) :
+    adjacency2 N1 N2 s = (List.range N2).map fun i => (List.range N2).map fun j =>
+      b2n (decide (i ≠ j ∧ s.θ < weighted s.nonLocal s.S s.damp (N1 + i) (N1 + j))) := by
+  unfold adjacency2 internalAdjacency nodes2
+  rw [hc.1, hN, blockN_congr _ (fun a b =>
+    b2n (decide (a ≠ b ∧ s.θ < weighted s.nonLocal s.S s.damp a b)))]
+  · simp only [List.map_map, Function.comp_def]
+    apply List.map_congr_left; intro i _
+    apply List.map_congr_left; intro j _
+    have : (N1 + i ≠ N1 + j) = (i ≠ j) := by
+      apply propext; constructor <;> intro h <;> omega
+    simp only [this]
+  · intro a ha b hb
+    simp only [List.mem_map, List.mem_range] at ha hb
+    obtain ⟨i, hi, rfl⟩ := ha
+    obtain ⟨j, hj, rfl⟩ := hb
+    rw [adjOf_thresholdAdjacency _ _ _ _ _ (by omega) (by omega)]
+
+open Pyunicorn.Cross in
+/-- **`number_cross_layer_links()`** counts the cross pairs above the threshold, and
+**`cross_link_density()`** is that count over `N₁·N₂` -/
+theorem coupled_number_cross_layer_links (N1 N2 : Nat) (s : Net) (hc : s.Consistent)
+    (hN : s.N = N1 + N2) :
+    numberCrossLayerLinks N1 N2 s = ((List.range N1).map fun i => ((List.range N2).map fun j =>
+        b2n (decide (s.θ < weighted s.nonLocal s.S s.damp i (N1 + j)))).sum).sum ∧
+      crossLinkDensityC N1 N2 s = (if N1 * N2 = 0 then none else
+        some ((numberCrossLayerLinks N1 N2 s : Rat) / ((N1 * N2 : Nat) : Rat))) := by
+  have h := coupled_cross_layer_adjacency N1 N2 s hc hN
+  unfold crossLayerAdjacency at h
+  constructor
+  · unfold numberCrossLayerLinks numberCrossLinks rowSums
+    rw [h]
+    simp [List.map_map, Function.comp_def]
+  · unfold crossLinkDensityC crossLinkDensity numberCrossLayerLinks
+    simp [nodes1, nodes2]
+
+/-- **the accessors after every history**: whatever setters and re-derivations ran, the
+cross-layer adjacency is the thresholded cross block at the *reported* threshold -/
+theorem coupled_after_history (N1 N2 : Nat) (directed : Bool) (S0 damp : Sim) (nl : Bool) (θ : Rat)
+    (ops : List Op) (s' : Net)
+    (h : (mkThreshold (N1 + N2) directed S0 damp nl θ).run ops = some s') :
+    crossLayerAdjacency N1 N2 s' = (List.range N1).map fun i => (List.range N2).map fun j =>
+      Pyunicorn.Cross.b2n (decide (s'.θ <
+        weighted s'.nonLocal (absSim (lastSim S0 ops)) damp i (N1 + j))) := by
+  have hc : (mkThreshold (N1 + N2) directed S0 damp nl θ).Consistent :=
+    (setThreshold_consistent _ θ).1
+  obtain ⟨c, ⟨d1, _, d3⟩, d4⟩ := consistent_after_history ops _ s' hc h
+  have hS : s'.S = absSim (lastSim S0 ops) := by rw [d4, ← curSim_absSim]; rfl
+  have hd : s'.damp = damp := d3
+  rw [coupled_cross_layer_adjacency N1 N2 s' c (by rw [d1]; rfl), hS, hd]
+
+example : let s : Net := mkThreshold 3 false (fun i j => if i = j then 1 else ((i + j : Nat) : Rat) / 4) (fun _ _ => 1) false (3/8)
+    crossLayerAdjacency 1 2 s = [[0, 1]] ∧ adjacency1 1 s = [[0]] ∧ adjacency2 1 2 s = [[0, 1], [1, 0]] ∧
+      numberCrossLayerLinks 1 2 s = 1 ∧ crossLinkDensityC 1 2 s = some (1/2) := by decide +kernel
+
 section Scripts
 open Script
 
@@ -900,6 +1373,17 @@ theorem script_hilbert_init (fr : Frame) (θ : Rat) (hθ : fr.initθ = some θ) 
       StructC09.init, StructC09.hilbertSetThreshold, StructC09.setThreshold,
       execList, execStmt, setNet, val, back, setThresholdOf, mask, Net.assignAdjacency, hθ, hd,
       hilbertState, hilbertAdjacency, phaseMask_idem]
+
+/-- `ClimateNetwork.link_density_function` as written (histogram of all stored similarities,
+normalisation, `out[i] = hist[:i].sum()`) = `linkDensityFunction` -/
+theorem script_linkDensityFunction (S : Sim) (N : Nat) (edges : List Rat) (n : Nat) :
+    ldfRun StructC09.linkDensityFunction S N edges n = some (linkDensityFunction S N edges n) := by
+  rfl
+
+/-- the accessors `threshold()`, `non_local()`, `similarity_measure()` are plain getters in the
+current source — the normalisation of the translator (inlining them) is justified -/
+theorem gen_getters : StructC09.getters = [("non_local", "_non_local"),
+    ("similarity_measure", "_similarity_measure"), ("threshold", "_threshold")] := by decide
 
 /-- of all classes of the climate package only `HilbertClimateNetwork` overrides a method of the
 threshold machinery (`set_threshold`); every other subclass — Tsonis, Spearman, MutualInfo,
